@@ -155,6 +155,20 @@ _m('C13',
    'flagged.',
    'DESIGN.md §3 C13')
 
+_m('C18',
+   'guard-dominance on the CFG of every set_value; normalised guard-atom comparison constructor vs setter; who-may-write; property/setter resolution over the class table; refuse-before-effect incl. publish-before-validate in constructors; finite-domain evaluation of the ordering operators',
+   'Decides that every store to the value field is dominated by the read-only refusal and by the class\'s type, bounds '
+   'and option checks, that every check the constructor applies to the default value also guards set_value, that '
+   'default value / read-only flag / key have a single writer, that no statement stores to a setter-less property, '
+   'that a parameter is handed to its parent only after its whole constructor chain has validated, that the map '
+   'refuses duplicate keys before inserting and keeps children in stable display order, that the ordering operators '
+   'follow display_priority, and that refused set_value/add calls change nothing. Holds for every sequence of '
+   'set-value attempts because each accepted store is guarded. Dotted-key retrieval/removal on arbitrary trees is not '
+   'decided.',
+   'Guard comparison is on normalised atoms (isinstance sets, chained comparisons, membership); unrecognised guard forms '
+   'fall back to text equality.',
+   'DESIGN.md §3 C18')
+
 
 def finalize():
     for i in range(1, 19):
